@@ -10,8 +10,9 @@ def funcs : List (String × String) := [
   ("framework/module/msgmetadata.go:MsgMetadata.DeepCopy", "c0d2cd14145168fe"),
   ("framework/module/msgmetadata.go:type MsgMetadata", "35edae60b069bca5"),
   ("internal/dsn/dsn.go:GenerateDSN", "cafaf64ea3d645c5"),
-  ("internal/dsn/dsn.go:RecipientInfo.WriteTo", "d9fd7d637aa8aaeb"),
+  ("internal/dsn/dsn.go:RecipientInfo.WriteTo", "b72ba0c09759afa4"),
   ("internal/dsn/dsn.go:ReportingMTAInfo.WriteTo", "77fbdf28a15ed64c"),
+  ("internal/dsn/dsn.go:fieldText", "beeceb906ec22a29"),
   ("internal/dsn/dsn.go:type Action", "15ada61402c8abb1"),
   ("internal/dsn/dsn.go:type Envelope", "f0614c26e1fe659a"),
   ("internal/dsn/dsn.go:type RecipientInfo", "0e279e2fb0ba3aba"),
@@ -19,10 +20,13 @@ def funcs : List (String × String) := [
   ("internal/dsn/dsn.go:writeHeader", "f4d399f446a887e0"),
   ("internal/dsn/dsn.go:writeHumanReadablePart", "17b9a08d4f6d92e6"),
   ("internal/dsn/dsn.go:writeMachineReadablePart", "17ff9620a7504ce3"),
+  ("internal/msgpipeline/msgpipeline.go:MsgPipeline.Start", "9b9e3864f9de0ef6"),
+  ("internal/msgpipeline/msgpipeline.go:msgpipelineDelivery.AddRcpt", "483b2d7e72200db8"),
+  ("internal/msgpipeline/msgpipeline.go:msgpipelineDelivery.getDelivery", "dc504feb895154cd"),
   ("internal/target/queue/queue.go:Queue.Start", "a3de4613def4b988"),
   ("internal/target/queue/queue.go:Queue.deliver", "f9c76cc6fc51885f"),
   ("internal/target/queue/queue.go:Queue.emitDSN", "1e8fbe65a4db35c1"),
-  ("internal/target/queue/queue.go:Queue.tryDelivery", "91d36a51cc7d0be5"),
+  ("internal/target/queue/queue.go:Queue.tryDelivery", "6590e3a3ec4082a2"),
   ("internal/target/queue/queue.go:toSMTPErr", "554ef79be59f95a6")
 ]
 
